@@ -45,6 +45,12 @@ def run(tier):
     res.add_tlc("Partition(exhaustive, %d calls)" % n, r)
     res.exhaustive = True
     items = [json.loads(x) for x in split_prints(r["out"]) if isinstance(x, str)]
+    if tier == "thorough" and len(items) > 7000:
+        # all sequences of 3 calls are covered by the quick tier; of the sequences of 4 calls a seeded sample is replayed
+        import random
+        random.Random(seed() + 2).shuffle(items)
+        items = items[:7000]
+        res.exhaustive = False
     traces = pool_map("drv_c15", "run", items)
     res.traces = res.evaluations = len(traces)
     judge(res, traces, wd)
